@@ -650,8 +650,8 @@ func NewPackage(pkgPath string, pkg *ast.Package, conf *Config) (p *gogen.Packag
 	for _, ld := range ctx.tylds {
 		ld.load()
 	}
-	for _, load := range ctx.inits {
-		load()
+	for i := 0; i < len(ctx.inits); i++ { // a body may load further symbols, which append their bodies
+		ctx.inits[i]()
 	}
 	err = ctx.complete()
 
@@ -1404,8 +1404,17 @@ func loadFunc(ctx *blockCtx, recv *types.Var, name string, d *ast.FuncDecl, genB
 					loadFuncBody(ctx, fn, body, sigBase, d)
 					pkg.RestoreCurFile(old)
 				})
-			} else {
+			} else if ctx.cb.Func() == nil {
 				loadFuncBody(ctx, fn, body, nil, d)
+			} else {
+				// loaded on demand in the middle of another function's body (its first reference): compile the
+				// body later, outside that function, or it would see the other function's local names
+				file := pkg.CurFile()
+				ctx.inits = append(ctx.inits, func() {
+					old := pkg.RestoreCurFile(file)
+					loadFuncBody(ctx, fn, body, nil, d)
+					pkg.RestoreCurFile(old)
+				})
 			}
 		} else {
 			// a declaration without body would leave an incomplete declaration behind (WriteTo panics on it)
